@@ -98,20 +98,10 @@ Theorem rfft_roundtrip_true (x : list Cx) : Forall is_real x ->
   irfft1 cis_true (length x) (rfft1 cis_true x) = x.
 Proof. apply (irfft1_rfft1 cis_true cis_true_add cis_true_0 cis_true_2 cis_true_prim cis_true_conj). Qed.
 
-(* ---- what the status functions (validated against the code) say on the finding inputs ---- *)
+(* ---- what the status functions (validated against the code) say on the open finding's input ---- *)
 Lemma ft_hc_unshifted_status :
   exists (shifts : list bool),
     @ft_init_status R _ false [mk_axis 0 3 4; mk_axis 0 4 5] [0; 1]%nat shifts true false = SOk
-    /\ ft_inverse_status true false true true shifts = STypeErr
+    /\ ft_inverse_status true true shifts = STypeErr
     /\ ft_forward_status true true true shifts = SOtherErr.
 Proof. exists [false; true]. repeat split; reflexivity. Qed.
-Lemma ft_real_unshifted_status :
-  exists (shifts : list bool),
-    ft_inverse_status true true true false shifts = STypeErr /\ ft_inverse_status true false true false shifts = SOk.
-Proof. exists [false]. split; reflexivity. Qed.
-Lemma dft_inverse_status_examples :
-  dft_inverse_status true true true true false true [4]%nat [0]%nat = SValueErr
-  /\ dft_inverse_status true true true true false false [4]%nat [0]%nat = SValueErr
-  /\ dft_inverse_status true true false true true false [5]%nat [0]%nat = SValueErr
-  /\ dft_inverse_status true true false true true false [4]%nat [0]%nat = SOk.
-Proof. repeat split; reflexivity. Qed.
